@@ -810,6 +810,29 @@ pub fn c08_script(fam: &str, idx: usize, seed: u64) -> Option<(SenderScript, Kno
             let desc = format!("orders: nak={} seg={} size={} order={:?} silent_rounds={} lose_again={:?} dup_eof={} prompt_after={:?} spacing={}ms late_dup={:?}", nak_name(&k.nak), seg, size, sc.order, sc.silent_rounds, sc.lose_again, sc.dup_eof, sc.prompt_after, sc.spacing_ms, sc.late_dup);
             Some((sc, k, desc))
         }
+        "suspeof" => {
+            // the EOF and then one of the missing segments arrive while the receiver is suspended; after the
+            // resume the first NAK round asks for what is missing THEN, not for what was missing when the EOF came
+            k.nak = nak_procs()[rng.usize(4)];
+            let seg = *rng.pick(&[16usize, 32, 64]);
+            k.seg = seg as u16;
+            let n = 4 + rng.usize(4);
+            let size = n * seg - rng.usize(seg);
+            let cl = rng.below(5);
+            let content = content(&mut rng, size, cl, seg, 0xC08);
+            // delivered before the suspension: metadata and the even segments below n-1; then the EOF and one odd
+            // segment during the suspension; the other odd segments and the last one stay missing
+            let mut order = vec![Item::M];
+            for j in (0..n - 1).step_by(2) {
+                order.push(Item::D(j));
+            }
+            let late = 1 + 2 * rng.usize((n - 1) / 2);
+            order.push(Item::E);
+            order.push(Item::D(late.min(n - 2)));
+            let sc = SenderScript { size, seg, content, order, silent_rounds: 0, lose_again: vec![], dup_eof: false, prompt_after: None, spacing_ms: 300, checksum: ChecksumType::Modular, crc: rng.bool(), late_dup: None, large: false };
+            let desc = format!("suspeof: nak={} seg={} segments={} order={:?}", nak_name(&k.nak), seg, n, sc.order);
+            Some((sc, k, desc))
+        }
         _ => None,
     }
 }
@@ -848,9 +871,67 @@ pub fn c08_case(fam: &str, idx: usize, seed: u64) -> Option<Case> {
         sc.scripts.push(Script { trig: Trigger::AfterArrive(1, 0), delay_ms: 170, act: Act::Prim(1, PrimKind::Resume, 0) });
         desc.push_str(" + receiver suspended 20..170 ms after the first delivery");
     }
+    if fam == "suspeof" {
+        // deliveries are 300 ms apart: suspend 150 ms before the EOF, resume 150 ms after the segment that follows it
+        let e_at = e_pos as u64 * 300;
+        sc.preset_ids.push((0, cfdp_core::transaction::TransactionID(VariableID::from(1u16), VariableID::from(7u16))));
+        sc.scripts.push(Script { trig: Trigger::At(e_at - 150), delay_ms: 0, act: Act::Prim(1, PrimKind::Suspend, 0) });
+        sc.scripts.push(Script { trig: Trigger::At(e_at + 450), delay_ms: 0, act: Act::Prim(1, PrimKind::Resume, 0) });
+    }
     let mut cs = Case::from(sc, &k, format!("{} :: {}", k.describe(), desc), false);
     cs.info.desc.push_str(&format!(" size={}", script.size));
     Some(cs)
+}
+
+/// suspeof family: the first NAK round after the resume does not ask for anything the receiver held when it was resumed
+pub fn judge_c08_suspeof(info: &Info, log: &RunLog, rep: &mut Report) {
+    let d = Dig::new(log);
+    count_observed(rep, log);
+    let id = cfdp_core::transaction::TransactionID(VariableID::from(1u16), VariableID::from(7u16));
+    let size = info.transfers[0].content.len();
+    let r_t = match d.prims(1, 0).into_iter().find(|p| p.2 == PrimKind::Resume && p.3).map(|p| p.1) {
+        Some(t) => t,
+        None => return,
+    };
+    let mut held = vec![false; size];
+    let mut md_held = false;
+    for a in d.arrivals(1, id).into_iter().filter(|a| a.1 <= r_t) {
+        match &a.3.payload {
+            PDUPayload::FileData(FileDataPDU::Unsegmented(u)) => {
+                for i in 0..u.file_data.len() {
+                    if let Some(h) = held.get_mut(u.offset as usize + i) {
+                        *h = true;
+                    }
+                }
+            }
+            PDUPayload::Directive(Operations::Metadata(_)) => md_held = true,
+            _ => {}
+        }
+    }
+    let naks: Vec<_> = d.emits(1, id).into_iter().filter(|e| e.3 == Kind::Nak && e.1 >= r_t).collect();
+    let first_t = match naks.first() {
+        Some(e) => e.1,
+        None => return,
+    };
+    rep.count("c08_suspeof_first_rounds_judged");
+    for e in naks.iter().filter(|e| e.1 <= first_t + 100_000) {
+        if let PDUPayload::Directive(Operations::Nak(n)) = &e.4.payload {
+            for r in &n.segment_requests {
+                let (a, b) = (r.start_offset as usize, (r.end_offset as usize).min(size));
+                if a == 0 && r.end_offset == 0 {
+                    if md_held {
+                        rep.violate("nak-asks-for-held-data", "after-resume what=metadata".into(), &info.case, witness(log, info, "the first NAK after the resume asks for the metadata, which the receiver already held"));
+                    }
+                    continue;
+                }
+                if a < b && held[a..b].iter().any(|h| *h) {
+                    rep.violate("nak-asks-for-held-data", format!("after-resume nak={}", info.knobs[1].shape()), &info.case, witness(log, info, &format!("the first NAK after the resume asks for ({},{}), part of which had arrived before the resume", r.start_offset, r.end_offset)));
+                    return;
+                }
+            }
+        }
+    }
+    rep.nontrivial(case_sig(info, log));
 }
 
 pub fn judge_c08(info: &Info, log: &RunLog, rep: &mut Report) {
@@ -1159,11 +1240,14 @@ pub fn run_c08(tier: &str, seed: u64, replay: Option<&str>) -> (Meta, Report) {
         rule: "one real receiving daemon against a scripted sender that knows exactly what it delivered. subsets = EVERY subset of {metadata, segment 0..n-1} lost, n = 0..6 segments, x 4 NAK procedures x segment sizes {16 (one request per NAK PDU: rounds split over several PDUs), 20 (not a multiple of the request size), 32} (complete), with 0 or 1 unanswered rounds and a duplicated EOF in every 5th case; orders = random loss subsets with arrival orders {in order, reversed, shuffled, EOF first, EOF in the middle, duplicates}, re-lost segments, 0-2 unanswered rounds, Prompt(NAK) at a random point, slow and fast pacing. The script answers a round 300 ms after its last PDU so that rounds are not cut short. distinct_nontrivial = distinct (config, size, event-order) signatures among runs in which at least one NAK was emitted.".into(),
         exhaustive: true,
         assumptions: vec!["the only size limit the configuration defines is the largest file-data PDU: header + offset + segment size (+CRC)".into(), "before EOF a request for bytes that arrived meanwhile is not judged (the statement demands exactness after EOF); it must still be well-formed".into()],
-        require: vec![("c08_nak_pdus_checked".into(), 1000), ("c08_rounds_after_eof_judged".into(), 1000), ("c08_rounds_split_over_several_pdus".into(), 100), ("c08_immediate_gaps_judged".into(), 100), ("c08_round_repeats_judged".into(), 200), ("c08_later_lives_judged(deferred)".into(), 200), ("c08_runs_with_receiver_suspend_resume".into(), 50), ("c08_runs_with_large_file_flag".into(), 200)],
+        require: vec![("c08_nak_pdus_checked".into(), 1000), ("c08_rounds_after_eof_judged".into(), 1000), ("c08_rounds_split_over_several_pdus".into(), 100), ("c08_immediate_gaps_judged".into(), 100), ("c08_round_repeats_judged".into(), 200), ("c08_later_lives_judged(deferred)".into(), 200), ("c08_runs_with_receiver_suspend_resume".into(), 50), ("c08_runs_with_large_file_flag".into(), 200), ("c08_suspeof_first_rounds_judged".into(), 100)],
         extra: vec![],
     };
     if let Some(r) = replay {
         let (_, fam, idx, sd) = parse_case(r);
+        if fam == "suspeof" {
+            return (meta, run_single(c08_case(&fam, idx, sd).expect("case"), judge_c08_suspeof));
+        }
         return (meta, run_single(c08_case(&fam, idx, sd).expect("case"), judge_c08));
     }
     let n = c08_subsets_len();
@@ -1172,6 +1256,9 @@ pub fn run_c08(tier: &str, seed: u64, replay: Option<&str>) -> (Meta, Report) {
     let nr = if thorough { 2_000_000 } else { 5_000 };
     rep.merge(run_cases(nr, "c08-orders", move |i| c08_case("orders", i, seed), judge_c08));
     rep.add("cases:orders", nr as u64);
+    let nse = if thorough { 50_000 } else { 600 };
+    rep.merge(run_cases(nse, "c08-suspeof", move |i| c08_case("suspeof", i, seed), judge_c08_suspeof));
+    rep.add("cases:suspeof", nse as u64);
     let mut meta = meta;
     meta.extra.push(("x_subsets_space".into(), J::U(n as u64)));
     (meta, rep)
